@@ -374,7 +374,7 @@ def R5_collect_protocol_fees(run):
         st = structs.get(mod + "::" + sname)
         for s in "ab":
             f = st.field("token_destination_" + s) if st else None
-            ok = f is not None and ("token_destination_%s.mint==whirlpool.token_mint_%s" % (s, s)) in f.values("constraint")
+            ok = f is not None and ACC.canon_eq("token_destination_%s.mint==whirlpool.token_mint_%s" % (s, s)) in f.values("constraint")
             run.check("R5", "destination-mint-%s@%s" % (s, sname), ok, "%s.token_destination_%s is not constrained to the pool's mint %s" % (sname, s, s.upper()),
                       loc=st.loc("token_destination_" + s) if st else None, detail="destination.mint == whirlpool.token_mint_" + s)
             f = st.field("token_vault_" + s) if st else None
